@@ -32,10 +32,18 @@ func NewRoundRobinLoadBalance() *RoundRobinLoadBalance {
 
 func (lb *RoundRobinLoadBalance) getIndex(n int64) int64 {
 	if n > 1 {
-		if i := atomic.AddInt64(&lb.index, 1); i < n {
-			return i
+		// advance and wrap in one atomic step: with a separate add and store, two
+		// concurrent callers arriving at the end of a cycle both got index 0
+		for {
+			old := atomic.LoadInt64(&lb.index)
+			i := old + 1
+			if i >= n {
+				i = 0
+			}
+			if atomic.CompareAndSwapInt64(&lb.index, old, i) {
+				return i
+			}
 		}
-		atomic.StoreInt64(&lb.index, 0)
 	}
 	return 0
 }
